@@ -321,6 +321,11 @@ pub fn scenario_mt(seed: u64, rep: &mut Report) {
 pub fn run(p: &Params) -> Report {
     let mut rep = Report::new("C20");
     if let Some(r) = &p.replay {
+        if super::sys::replay(r, &mut rep) {
+            return rep;
+        }
+    }
+    if let Some(r) = &p.replay {
         let seed: u64 = r["replay"]["scenario_seed"].as_str().unwrap().parse().unwrap();
         if r["replay"]["variant"] == "multi-thread" {
             scenario_mt(seed, &mut rep);
@@ -338,5 +343,7 @@ pub fn run(p: &Params) -> Report {
     for i in 0..m {
         scenario_mt(p.shard_seed(0x2F_0000 + i), &mut rep);
     }
+    // full stack: an unmodified Discv5 inside a simulated network, judged on the wire and the API
+    super::sys::run_mixed(p, super::sys::Focus::C20, 0x5C20_0000, 1600, 100000, &mut rep);
     rep
 }
